@@ -107,6 +107,11 @@ pub trait Property: Sync {
     fn exhaustive_note(&self) -> Option<String> {
         None
     }
+    /// work that must precede the scenario streams (e.g. a baseline computed in fresh processes)
+    fn prepare(&self, _ctx: &Ctx) -> Result<(), String> {
+        Ok(())
+    }
+    fn finish(&self, _ctx: &Ctx) {}
 }
 
 #[derive(Default)]
@@ -354,6 +359,12 @@ pub fn check(prop: &dyn Property, ctx: &Ctx) -> CheckOutcome {
         .and_then(|s| s.parse::<u64>().ok())
         .map(|s| t0 + std::time::Duration::from_secs(s));
 
+    if let Err(e) = prop.prepare(ctx) {
+        say!("[{}] HARNESS: preparation failed: {}", id, e);
+        prop.finish(ctx);
+        return CheckOutcome { exit_code: 2 };
+    }
+
     // determinism slice: the first 64 streams twice, single worker vs all workers is covered by
     // `selftest`; here the same streams are simply executed twice and compared.
     let slice = budget.min(64);
@@ -393,6 +404,8 @@ pub fn check(prop: &dyn Property, ctx: &Ctx) -> CheckOutcome {
         }
     }
 
+    prop.finish(ctx);
+
     // violations: group by clause, minimise the first of each, confirm in a fresh process
     let known = load_known(&ctx.verif_root);
     let mut reported: Vec<(String, String)> = vec![];
@@ -426,7 +439,7 @@ pub fn check(prop: &dyn Property, ctx: &Ctx) -> CheckOutcome {
             replay_dir,
             id,
             ctx.seed,
-            index,
+            if index == u64::MAX { "pre".to_string() } else { index.to_string() },
             hash_str(3, &clause) as u32
         );
         let env = envelope(id, ctx.seed, index, &mv);
